@@ -83,7 +83,7 @@ def ParseSt.line (s : ParseSt) (toks : List String) : ParseSt × Option String :
       | .panic => "panic"))
   | ["hidi", dec, pool, disc, stab] =>
     let d : Outcome HidiRaw := if dec = "ok" then .ok ⟨tokInt pool, tokInt disc, tokInt stab⟩ else if dec = "panic" then .panic else .err
-    (s, some (match loadHidi d true with
+    (s, some (match loadHidi d Gen.loadHidiRecovers with
       | .ok c => s!"ok {c.evThrottling} {c.discoveryRate} {c.stabilization}"
       | .err => "err"
       | .panic => "panic"))
